@@ -749,13 +749,18 @@ impl Router {
                                 continue;
                             }
 
-                            // Remove connections from all groups
-                            // discard empty group ( group with no client )
-                            // note: can we do this in better way?
-                            self.shared_subscriptions.retain(|_, group| {
-                                group.remove_client(&client_id);
-                                !group.is_empty()
-                            });
+                            // Remove the connection from the group of this shared
+                            // subscription (if it is one) and discard the group when it
+                            // has no client left
+                            if let Some((group_name, _)) = extract_group(filter) {
+                                if let Some(group) = self.shared_subscriptions.get_mut(&group_name)
+                                {
+                                    group.remove_client(&client_id);
+                                    if group.is_empty() {
+                                        self.shared_subscriptions.remove(&group_name);
+                                    }
+                                }
+                            }
 
                             if let Some(broker_aliases) = connection.broker_topic_aliases.as_mut() {
                                 broker_aliases.remove_alias(filter);
